@@ -120,7 +120,7 @@ Section DevSnap.
   Proof.
     intros Hv Ht. unfold entry. rewrite HL. unfold dexp, dexpect. rewrite dkey_div, dkey_mod by lia.
     unfold dsel. rewrite Hv. cbn [andb].
-    destruct (((life u =? 2) || live && (life u =? 1)) && (dd_node (ddesc_of ds u) =? node)); [|reflexivity].
+    destruct ((is_bound (life u) || live && (life u =? 1)) && (dd_node (ddesc_of ds u) =? node)); [|reflexivity].
     unfold group_of. destruct (find (fun g => fst g =? t) (dd_groups (ddesc_of ds u))) as [g|] eqn:Ef; [|reflexivity].
     cbn [option_map]. f_equal. apply find_some in Ef. destruct Ef as [_ Eg]. apply Z.eqb_eq in Eg. subst t. apply strip_dalloc.
   Qed.
@@ -449,12 +449,13 @@ Section DevRun.
 
   Lemma drun_ops_ok l ops :
     DLive ds l ->
-    first_nz (map (fun lo => dstep_code c (fst lo) (snd lo)) (combine (dlives c l ops) (drun_ops c l ops))) = 0.
+    first_nz (map (fun lo => dobs_code c (fst lo) (snd lo)) (combine (dlives c l ops) (drun_ops c l ops))) = 0.
   Proof.
     revert l. induction ops as [|op t IH]; intros l HL; [reflexivity|].
     cbn [dlives drun_ops combine map first_nz fst snd].
     pose proof (dlive_step_DLive ds (dcase_descs c Hok) l op HL) as HL'. fold ds.
-    rewrite (dstep_ok _ HL'). cbn [Z.eqb]. apply IH, HL'.
+    unfold dobs_code at 1. cbn [fst snd]. fold ds.
+    rewrite (dstep_ok _ HL'). cbn [Z.eqb negb]. rewrite eq_listZ_refl. cbn [Z.eqb]. apply IH, HL'.
   Qed.
   Lemma drun_ops_length l ops : length (drun_ops c l ops) = length ops.
   Proof. revert l. induction ops as [|op t IH]; intros l; [reflexivity|]. cbn [drun_ops length]. f_equal. apply IH. Qed.
